@@ -1,4 +1,5 @@
 import ComposeVerif.Lemmas.ExtendsCycle
+import ComposeVerif.Lemmas.ExtendsChain
 /-!
 # Deciding `Cyclic`: follow the links only
 
@@ -183,5 +184,62 @@ theorem walkChain_long_cyclic (E : Env) (S0 : KVs) (n : String) (fuel : Nat)
     have := nodeUniverse_length_le E S0
     simp only [List.length_cons] at hl hlen2
     omega
+
+/-! ## `leaf` ⇔ the service has a chain -/
+
+theorem walkChain_leaf_chain (E : Env) : ∀ (fuel : Nat) (cf : String) (S : KVs) (n : String),
+    walkChain E fuel S n = .leaf → ∃ links leaf, Chain E cf S n links leaf ∧ links.length < fuel := by
+  intro fuel
+  induction fuel with
+  | zero => intro cf S n h; simp [walkChain] at h
+  | succ fuel ih =>
+    intro cf S n h
+    simp only [walkChain] at h
+    split at h <;> try cases h
+    rename_i svc hsvc
+    split at h
+    · rename_i hne
+      exact ⟨[], _, Chain.leaf hsvc hne, by simp⟩
+    · rename_i e he
+      split at h <;> try cases h
+      rename_i ref file hp
+      split at h <;> try cases h
+      rename_i S' hb
+      obtain ⟨links, leaf, hc, hl⟩ := ih (nextFile cf file) S' ref h
+      exact ⟨_ :: links, leaf, Chain.step hsvc he hp hb hc, by simp only [List.length_cons]; omega⟩
+
+theorem Chain.walk_leaf {E : Env} {cf : String} {S : KVs} {n : String} {links : List ChainElt} {leaf : ChainElt}
+    (h : Chain E cf S n links leaf) : ∀ fuel, links.length < fuel → walkChain E fuel S n = .leaf := by
+  induction h with
+  | leaf h1 h2 =>
+    intro fuel hf
+    obtain ⟨k, rfl⟩ : ∃ k, fuel = k + 1 := ⟨fuel - 1, by omega⟩
+    simp [walkChain, h1, h2]
+  | step h1 h2 h3 h4 h5 ih =>
+    intro fuel hf
+    obtain ⟨k, rfl⟩ : ∃ k, fuel = k + 1 := ⟨fuel - 1, by omega⟩
+    simp only [List.length_cons] at hf
+    simp [walkChain, h1, h2, h3, h4, ih k (by omega)]
+
+theorem walkChain_stuck_no_chain (E : Env) : ∀ (fuel : Nat) (cf : String) (S : KVs) (n : String),
+    walkChain E fuel S n = .stuck → ¬ ∃ links leaf, Chain E cf S n links leaf := by
+  intro fuel
+  induction fuel with
+  | zero => intro cf S n h; simp [walkChain] at h
+  | succ fuel ih =>
+    intro cf S n h ⟨links, leaf, hc⟩
+    cases hc with
+    | leaf g1 g2 => simp [walkChain, g1, g2] at h
+    | step g1 g2 g3 g4 g5 =>
+      simp only [walkChain, g1, g2, g3, g4] at h
+      exact ih _ _ _ h ⟨_, _, g5⟩
+
+/-- a chain is a duplicate-free path: it is never longer than the universe of tracker keys -/
+theorem Chain.not_cyclic {E : Env} {cf : String} {S : KVs} {n : String} {links : List ChainElt} {leaf : ChainElt}
+    (h : Chain E cf S n links leaf) : ¬ Cyclic E (S, n) := by
+  intro hc
+  have h1 := h.walk_leaf (links.length + 1) (by omega)
+  have h2 := walkChain_cyclic E (links.length + 1) S n hc
+  rw [h1] at h2; cases h2
 
 end CV.Extends
